@@ -434,8 +434,17 @@ def tigerxml_encode(treebank, rng=None, sid_format='s%d', encoding='utf-8',
         root = model.from_spec(spec['root'])
         pre = 's%d_' % spec['sid']
         ids = {}
-        for t in root.toks():
-            ids[id(t)] = '%s%d' % (pre, t.num)
+        toks_ = root.toks()
+        if rng is not None and rng.random() < 0.3:
+            # ids are names, not positions: the order of the <t> elements is
+            # the order of the sentence
+            nums_ = rng.sample(range(1, 400), len(toks_)) \
+                if len(toks_) < 300 else list(range(len(toks_), 0, -1))
+            for t, k_ in zip(toks_, nums_):
+                ids[id(t)] = '%sw%d' % (pre, k_)
+        else:
+            for t in toks_:
+                ids[id(t)] = '%s%d' % (pre, t.num)
         cons = [n for n in root.nodes() if n.children]
         if not with_vroot:
             if len(root.children) != 1 or not root.children[0].children:
